@@ -62,7 +62,7 @@ class St:
     __slots__ = ("env", "fver", "bind", "origin", "held", "names", "facts", "nulls")
 
     def __init__(self):
-        self.names = {}     # pointer key -> allocation site id it may name                may-information
+        self.names = {}     # pointer key -> frozenset of allocation site ids it may name   may-information
         self.facts = frozenset()   # (condition key, truth) known on this path (conditions over unmodified local scalars)
         self.env = {}       # int var id -> Term
         self.fver = {}      # field key -> version (line of the last store)
@@ -114,8 +114,9 @@ class St:
                 self.held[k] = v
                 ch = True
         for k, v in o.names.items():
-            if k not in self.names:
-                self.names[k] = v
+            n = self.names.get(k, frozenset()) | v
+            if n != self.names.get(k):
+                self.names[k] = n
                 ch = True
         return ch
 
@@ -279,8 +280,7 @@ class Fn:
         return (t[0], frozenset((a, b) for a, b in d.items() if b))
 
     def release(self, st, k):
-        site = st.names.get(k)
-        if site is not None:
+        for site in st.names.get(k, ()):
             st.held.pop(site, None)
 
     # ---- transfer -----------------------------------------------------------------------------
@@ -319,8 +319,12 @@ class Fn:
             if v is not None:
                 st.held.pop("obj:%d" % v["id"], None)
             return None
-        if c in GETSTR and args and args[0].get("k") == "int" and args[0]["v"] == 0:
-            return ("string", None, line)
+        if c in GETSTR and args:
+            a0 = args[0]
+            while isinstance(a0, dict) and a0.get("k") == "cast":
+                a0 = a0["e"]                       # NULL is ((void *) 0)
+            if isinstance(a0, dict) and a0.get("k") == "int" and a0["v"] == 0:
+                return ("string", None, line)
         # a pointer handed to any other callee: ownership is not transferred (all library callees copy or read)
         return None
 
@@ -367,12 +371,12 @@ class Fn:
                     st.bind[lk] = (t, l0)
                 if lhs.get("k") == "var" and lhs["id"] not in self.paramids and not lhs.get("global"):
                     st.held["site:%d" % l0] = ("block allocated at line %d" % l0, l0)
-                    st.names[lk] = "site:%d" % l0
+                    st.names[lk] = frozenset(["site:%d" % l0])
             elif what == "string":
                 st.bind[lk] = (tadd(T(0, [(("strlen", lk), 1)]), T(1)), l0)
                 if lhs.get("k") == "var" and lhs["id"] not in self.paramids:
                     st.held["site:%d" % l0] = ("string returned by mp*_get_str (NULL, ...) at line %d" % l0, l0)
-                    st.names[lk] = "site:%d" % l0
+                    st.names[lk] = frozenset(["site:%d" % l0])
             return
         # pointer copies: p = q, p = z->_mp_d
         rk = key(r) if isinstance(r, dict) else None
@@ -683,3 +687,13 @@ def run(prop="C04", tier="quick"):
     res["notes"].append("fixtures: 4 positive fired, 2 negative silent")
     res["exhaustive"] = True
     return res
+
+
+def run_io(prop="C17", tier="quick"):
+    """C17 view: the stream / raw / string I/O functions and the printf / scanf layer neither leak a heap block nor free one with
+    the wrong size on any path, in particular on their failure exits (`without crashing or leaking`)"""
+    from r_tmp import IO_UNITS
+    r = run(prop=prop, tier=tier)
+    r["findings"] = [f for f in r["findings"] if any(u in f.file for u in IO_UNITS) or "/printf/" in f.file or "/scanf/" in f.file]
+    r["notes"].append("findings restricted to the I/O units (%d patterns) and printf/ scanf/" % len(IO_UNITS))
+    return r
